@@ -103,7 +103,9 @@ def gen_op(r, n):
     if k < 96:
         return "a.map(function(x) { return x; })"
     if k < 97:
-        return "Object.freeze(a)"
+        # a read-only `length` keeps the array in its dense storage (freeze / seal move it to sparse storage first): every method
+        # that ends with Set(O, "length", …) must then throw on every storage form alike
+        return ["Object.freeze(a)", "Object.defineProperty(a, 'length', {writable: false})", "Object.preventExtensions(a)"][r() % 3]
     if k < 99:
         return "a.lastIndexOf(%s)" % v
     return "a.at(%d)" % (i - 1)
